@@ -14,7 +14,7 @@ def plainCfg (cfg : Cfg) : Cfg := { cfg with pos := false, com := false }
 (at every depth), attribute dicts are the same up to their `__comments__` entry, everything else is identical -/
 def Rel : R → R → Prop
   | .cdict d, r0 => r0 = .cdict (stripF d)
-  | .adict kvs, r0 => r0 = .adict kvs ∨ r0 = .adict (delAV comKey kvs)
+  | .adict kvs, r0 => ∃ kvs0, r0 = .adict kvs0 ∧ delAV comKey kvs0 = delAV comKey kvs
   | r, r0 => r0 = r
 
 /-- the fold state of `composite`: the plain run's dict is the flagged run's minus bookkeeping, and it keeps none -/
@@ -147,10 +147,12 @@ theorem compositeItem_sim (cfg : Cfg) (S Rp : List Str) (st st0 st' : CState) (r
       simp only [hp] at h
       have hguard := attrParts_guard kvs key v pos hp
       simp only [Rel] at hr
-      rcases hr with hr | hr <;> subst hr <;> simp only [compositeItem]
-      · rw [hp]; exact attrItem_sim cfg Rp st st0 st' key v pos _ _ hguard.1 hguard.2 hs h
-      · rw [attrParts_delCom kvs, hp]
-        exact attrItem_sim cfg Rp st st0 st' key v pos _ _ hguard.1 hguard.2 hs h
+      obtain ⟨kvs0, rfl, hdel⟩ := hr
+      simp only [compositeItem]
+      have hp0 : attrParts kvs0 = .ok (key, v, pos) := by
+        rw [← attrParts_delCom kvs0, hdel, attrParts_delCom kvs, hp]
+      rw [hp0]
+      exact attrItem_sim cfg Rp st st0 st' key v pos _ _ hguard.1 hguard.2 hs h
   | tok _ | seq _ _ | str _ | tree _ _ _ => simp [compositeItem] at h
 
 /-- item lists of the two runs, related element by element -/
@@ -402,7 +404,7 @@ theorem C13_item_transparent (cfg : Cfg) : (t : R) → ShapeItem t → ∀ r, ma
     | ok xs' =>
       simp only [hm] at h
       obtain ⟨kvs, rfl⟩ := attrLike_adict cfg data cm xs' r hd h
-      exact Or.inl rfl
+      exact ⟨kvs, rfl, rfl⟩
   | _, .kv data cm xs hd hx, r, h => kvTree_sim cfg data cm xs r hd hx h
   | _, .kvblock data cm cm2 xs hd hx, r, h => by
     rw [mainT_tree, mainTL_cons] at h ⊢
@@ -502,6 +504,446 @@ theorem shapeItems_of_B : (ts : List R) → shapeItemsB ts = true → ShapeItems
   | x :: r, h => by
     simp only [shapeItemsB, Bool.and_eq_true] at h
     exact .cons x r (shapeItem_of_B x h.1) (shapeItems_of_B r h.2)
+end
+
+/-! ### the two-pass pipeline (include_comments on): CommentsTransformer, then the main transformer -/
+
+theorem delAV_setAV_self (k : Str) (v : AV) : (l : List (Str × AV)) → delAV k (setAV k v l) = delAV k l
+  | [] => by simp [setAV, delAV]
+  | (a, x) :: r => by
+    by_cases h : a = k
+    · subst h; simp [setAV, delAV]
+    · simp [setAV, delAV, h, delAV_setAV_self k v r]
+
+mutual
+theorem plainT_flagFree : (t : R) → plainT t = true → flagFree t = true
+  | .tree data cm xs, h => by
+    simp only [plainT, Bool.and_eq_true, Bool.not_eq_true'] at h
+    show (!flagNames.contains data && flagFreeL xs) = true
+    rw [h.1.2, plainTL_flagFreeL xs h.2]; rfl
+  | .tok _, _ | .str _, _ => rfl
+  | .seq _ xs, h => by simp only [plainT] at h; simp [flagFree, plainTL_flagFreeL xs h]
+  | .adict _, h | .cdict _, h => by simp [plainT] at h
+theorem plainTL_flagFreeL : (ts : List R) → plainTL ts = true → flagFreeL ts = true
+  | [], _ => rfl
+  | x :: r, h => by
+    simp only [plainTL, Bool.and_eq_true] at h
+    simp [flagFreeL, plainT_flagFree x h.1, plainTL_flagFreeL r h.2]
+end
+
+theorem comNode_other (cfg : Cfg) (data : Str) (cm : Option (List Str)) (xs : List R)
+    (h : comNames.contains data = false) : comNode cfg data cm xs = .ok (.tree data cm xs) := by
+  simp only [comNames, List.contains_cons, List.contains_nil, Bool.or_false, Bool.or_eq_false_iff, beq_eq_false_iff_ne, ne_eq] at h
+  obtain ⟨h1, h2, h3⟩ := h
+  simp [comNode, h1, h2, h3]
+
+mutual
+/-- the comments pass leaves value subtrees alone -/
+theorem comT_plain (cfg : Cfg) : (t : R) → plainT t = true → comT cfg t = .ok t
+  | .tree data cm xs, h => by
+    simp only [plainT, Bool.and_eq_true, Bool.not_eq_true'] at h
+    simp only [comT, comTL_plain cfg xs h.2, comNode_other cfg data cm xs h.1.1]
+  | .tok _, _ | .str _, _ | .seq _ _, _ | .adict _, _ | .cdict _, _ => by simp [comT]
+theorem comTL_plain (cfg : Cfg) : (ts : List R) → plainTL ts = true → comTL cfg ts = .ok ts
+  | [], _ => by simp [comTL]
+  | x :: r, h => by
+    simp only [plainTL, Bool.and_eq_true] at h
+    simp [comTL, comT_plain cfg x h.1, comTL_plain cfg r h.2]
+end
+
+/-- what the enclosing `composite` call-back finally sees of an item: comments pass, then main pass -/
+def item2 (cfg : Cfg) (t : R) : Res R :=
+  match comT cfg t with
+  | .ok t' => mainT cfg t'
+  | .error e => .error e
+
+def items2 (cfg : Cfg) (ts : List R) : Res (List R) :=
+  match comTL cfg ts with
+  | .ok ts' => mainTL cfg ts'
+  | .error e => .error e
+
+theorem items2_cons (cfg : Cfg) (x : R) (r : List R) (a : R) (b : List R) (h : items2 cfg (x :: r) = .ok (a :: b)) :
+    item2 cfg x = .ok a ∧ items2 cfg r = .ok b := by
+  unfold items2 item2 at *
+  simp only [comTL] at h
+  cases h1 : comT cfg x with
+  | error e => simp [h1] at h
+  | ok x' =>
+    cases h2 : comTL cfg r with
+    | error e => simp [h1, h2] at h
+    | ok r' =>
+      simp only [h1, h2, mainTL_cons] at h
+      cases h3 : mainT cfg x' with
+      | error e => simp [h3] at h
+      | ok a' =>
+        cases h4 : mainTL cfg r' with
+        | error e => simp [h3, h4] at h
+        | ok b' =>
+          simp only [h3, h4] at h
+          injection h with h; injection h with ha hb
+          subst ha; subst hb
+          exact ⟨h3, h4⟩
+
+theorem items2_nil_or_cons (cfg : Cfg) (ts : List R) (rs : List R) (h : items2 cfg ts = .ok rs) : ts.length = rs.length := by
+  induction ts generalizing rs with
+  | nil => simp [items2, comTL, mainTL] at h; subst h; rfl
+  | cons x r ih =>
+    cases rs with
+    | nil =>
+      unfold items2 at h
+      simp only [comTL] at h
+      cases h1 : comT cfg x with
+      | error e => simp [h1] at h
+      | ok x' =>
+        cases h2 : comTL cfg r with
+        | error e => simp [h1, h2] at h
+        | ok r' =>
+          simp only [h1, h2, mainTL_cons] at h
+          cases h3 : mainT cfg x' with
+          | error e => simp [h3] at h
+          | ok a' => cases h4 : mainTL cfg r' <;> simp [h3, h4] at h
+    | cons a b =>
+      have := items2_cons cfg x r a b h
+      simp [ih b this.2]
+
+theorem mainT_done (cfg : Cfg) (r : R) (h : ∀ d cm xs, r ≠ .tree d cm xs) : mainT cfg r = .ok r := by
+  cases r with
+  | tree d cm xs => exact absurd rfl (h d cm xs)
+  | _ => simp [mainT]
+
+theorem addMetadataComments_strip (d d3 : Fields) (md : List R) (h : addMetadataComments d md = .ok d3) :
+    stripF d3 = stripF d := by
+  unfold addMetadataComments at h
+  simp only [bind, Except.bind, pure, Except.pure] at h
+  split at h
+  · split at h
+    · simp at h
+    · injection h with h; subst h
+      exact stripF_setKey_hidden comKey _ (by decide) d
+  · injection h with h; subst h; rfl
+
+theorem compCom_strip (cm : Option (List Str)) (xs' : List R) (d : Fields) (r : R) (h : compCom cm xs' (.cdict d) = .ok r) :
+    ∃ d3, r = .cdict d3 ∧ stripF d3 = stripF d := by
+  have hc : hiddenKey comKey = true := by decide
+  simp only [compCom] at h
+  have e1 : stripF (if hasKey comKey d = true then d else setKey comKey (.dict []) d) = stripF d := by
+    split
+    · rfl
+    · exact stripF_setKey_hidden comKey _ hc d
+  generalize (if hasKey comKey d = true then d else setKey comKey (.dict []) d) = d1 at h e1
+  have e2 : stripF (if (cm.getD []).isEmpty = true then d1 else
+      match lookup comKey d1 with
+      | some (.dict c) => setKey comKey (.dict (setKey s%"__type__" (commentsJ cm) c)) d1
+      | _ => d1) = stripF d1 := by
+    split
+    · rfl
+    · split
+      · exact stripF_setKey_hidden comKey _ hc d1
+      · rfl
+  generalize (if (cm.getD []).isEmpty = true then d1 else
+      match lookup comKey d1 with
+      | some (.dict c) => setKey comKey (.dict (setKey s%"__type__" (commentsJ cm) c)) d1
+      | _ => d1) = d2 at h e2
+  split at h
+  · split at h
+    · rename_i md _
+      cases ha : addMetadataComments d2 md with
+      | error e => simp [ha] at h
+      | ok d3 =>
+        simp only [ha] at h; injection h with h; subst h
+        exact ⟨d3, rfl, by rw [addMetadataComments_strip d2 d3 md ha, e2, e1]⟩
+    · simp at h
+  · injection h with h; subst h
+    exact ⟨d2, rfl, by rw [e2, e1]⟩
+
+mutual
+/-- the shapes of block items for the two-pass pipeline -/
+inductive ShapeC : R → Prop
+  | simple (data : Str) (cm : Option (List Str)) (xs : List R) :
+      attrNames.contains data = true → plainTL xs = true → ShapeC (.tree data cm xs)
+  | kv (data : Str) (cm : Option (List Str)) (xs : List R) :
+      kvNames.contains data = true → plainTL xs = true → ShapeC (.tree data cm xs)
+  | kvblock (data : Str) (cm cm2 : Option (List Str)) (xs : List R) :
+      kvNames.contains data = true → plainTL xs = true → ShapeC (.tree s%"composite" cm [.tree data cm2 xs])
+  | block (cm cm2 : Option (List Str)) (ty : R) (items : List R) :
+      plainT ty = true → ShapeCs items → ShapeC (.tree s%"composite" cm [ty, .tree s%"composite_body" cm2 items])
+inductive ShapeCs : List R → Prop
+  | nil : ShapeCs []
+  | cons (x : R) (r : List R) : ShapeC x → ShapeCs r → ShapeCs (x :: r)
+end
+
+theorem kv_notcom (data : Str) (hd : kvNames.contains data = true) : comNames.contains data = false := by
+  simp only [kvNames, List.contains_cons, List.contains_nil, Bool.or_false, Bool.or_eq_true, beq_iff_eq] at hd
+  rcases hd with rfl | rfl | rfl | rfl <;> decide
+
+/-- a `simple` item in the two-pass pipeline -/
+theorem simple_com (cfg : Cfg) (data : Str) (cm : Option (List Str)) (xs : List R) (r : R)
+    (hd : attrNames.contains data = true) (hx : plainTL xs = true) (h : item2 cfg (.tree data cm xs) = .ok r) :
+    ∃ r0, mainT (plainCfg cfg) (.tree data cm xs) = .ok r0 ∧ Rel r r0 := by
+  have hff : flagFree (.tree data cm xs) = true := by
+    show (!flagNames.contains data && flagFreeL xs) = true
+    rw [attr_noflag data hd, plainTL_flagFreeL xs hx]; rfl
+  rw [mainT_flagFree cfg _ hff]
+  unfold item2 at h
+  simp only [comT, comTL_plain cfg xs hx] at h
+  -- the main transformer's own result on this node
+  cases hm : mainT cfg (.tree data cm xs) with
+  | error e =>
+    -- then both passes fail
+    simp only [attrNames, List.contains_cons, List.contains_nil, Bool.or_false, Bool.or_eq_true, beq_iff_eq] at hd
+    rcases hd with rfl | rfl | rfl | rfl | rfl <;> simp [comNode, hm] at h
+  | ok r1 =>
+    have hr1 : ∃ kvs, r1 = .adict kvs := by
+      rw [mainT_tree] at hm
+      cases hml : mainTL cfg xs with
+      | error e => simp [hml] at hm
+      | ok xs' => simp only [hml] at hm; exact attrLike_adict cfg data cm xs' r1 hd hm
+    obtain ⟨kvs, rfl⟩ := hr1
+    refine ⟨.adict kvs, rfl, ?_⟩
+    simp only [attrNames, List.contains_cons, List.contains_nil, Bool.or_false, Bool.or_eq_true, beq_iff_eq] at hd
+    rcases hd with rfl | rfl | rfl | rfl | rfl
+    · -- attr
+      simp only [comNode, if_true, hm, attrCom] at h
+      simp only [mainT] at h
+      injection h with h; subst h
+      exact ⟨kvs, rfl, (delAV_setAV_self comKey _ kvs).symm⟩
+    · -- config: untouched by the comments pass
+      have : comNode cfg s%"config" cm xs = .ok (.tree s%"config" cm xs) := comNode_other cfg _ cm xs (by decide)
+      simp only [this, hm] at h
+      injection h with h; subst h
+      exact ⟨kvs, rfl, rfl⟩
+    · have : comNode cfg s%"points" cm xs = .ok (.tree s%"points" cm xs) := comNode_other cfg _ cm xs (by decide)
+      simp only [this, hm] at h
+      injection h with h; subst h
+      exact ⟨kvs, rfl, rfl⟩
+    · have : comNode cfg s%"pattern" cm xs = .ok (.tree s%"pattern" cm xs) := comNode_other cfg _ cm xs (by decide)
+      simp only [this, hm] at h
+      injection h with h; subst h
+      exact ⟨kvs, rfl, rfl⟩
+    · -- projection
+      have hne : (s%"projection" : Str) ≠ s%"attr" := by decide
+      simp only [comNode, hne, if_false, if_true, hm, projCom] at h
+      split at h
+      · simp only [mainT] at h; injection h with h; subst h; exact ⟨kvs, rfl, rfl⟩
+      · simp only [mainT] at h; injection h with h; subst h
+        exact ⟨kvs, rfl, (delAV_setAV_self comKey _ kvs).symm⟩
+
+theorem comT_tree (cfg : Cfg) (data : Str) (cm : Option (List Str)) (xs : List R) :
+    comT cfg (.tree data cm xs) =
+      match comTL cfg xs with
+      | .ok xs' => comNode cfg data cm xs'
+      | .error e => .error e := by
+  simp only [comT]
+  cases comTL cfg xs <;> rfl
+
+theorem comTL_cons (cfg : Cfg) (x : R) (r : List R) :
+    comTL cfg (x :: r) =
+      match comT cfg x with
+      | .error e => .error e
+      | .ok x' => (match comTL cfg r with | .ok r' => .ok (x' :: r') | .error e => .error e) := by
+  simp only [comTL]
+  cases comT cfg x with
+  | error e => rfl
+  | ok x' => cases comTL cfg r <;> rfl
+
+theorem comNode_composite (cfg : Cfg) (cm : Option (List Str)) (xs' : List R) :
+    comNode cfg s%"composite" cm xs' =
+      match mainT cfg (.tree s%"composite" cm xs') with
+      | .ok r => compCom cm xs' r
+      | .error e => .error e := by
+  have hne1 : (s%"composite" : Str) ≠ s%"attr" := by decide
+  have hne2 : (s%"composite" : Str) ≠ s%"projection" := by decide
+  simp only [comNode, hne1, hne2, if_false, if_true]
+  cases mainT cfg (.tree s%"composite" cm xs') <;> rfl
+
+theorem valuePairs_cdict (cfg : Cfg) (ty : Str) (ts : List R) (r : R) (h : valuePairs cfg ty ts = .ok r) : ∃ d, r = .cdict d := by
+  unfold valuePairs at h
+  repeat' split at h
+  all_goals first
+    | (injection h with h; subst h; exact ⟨_, rfl⟩)
+    | (simp at h; done)
+
+theorem compositeBody_cdict (cfg : Cfg) (S Rp : List Str) (key : Tok) (items : List R) (r : R)
+    (h : compositeBody cfg S Rp key items = .ok r) : ∃ d, r = .cdict d := by
+  unfold compositeBody at h
+  repeat' split at h
+  all_goals first
+    | (injection h with h; subst h; exact ⟨_, rfl⟩)
+    | (simp at h; done)
+
+theorem shapeItem_of_C_kvblock (data : Str) (cm cm2 : Option (List Str)) (xs : List R)
+    (hd : kvNames.contains data = true) (hx : plainTL xs = true) :
+    ShapeItem (.tree s%"composite" cm [.tree data cm2 xs]) :=
+  .kvblock data cm cm2 xs hd (plainTL_flagFreeL xs hx)
+
+mutual
+/-- **C13_item_transparent_com** — every item of a block through BOTH passes (comments, then main), at every depth -/
+theorem C13_item_transparent_com (cfg : Cfg) : (t : R) → ShapeC t → ∀ r, item2 cfg t = .ok r →
+    ∃ r0, mainT (plainCfg cfg) t = .ok r0 ∧ Rel r r0
+  | _, .simple data cm xs hd hx, r, h => simple_com cfg data cm xs r hd hx h
+  | _, .kv data cm xs hd hx, r, h => by
+    unfold item2 at h
+    simp only [comT, comTL_plain cfg xs hx, comNode_other cfg data cm xs (kv_notcom data hd)] at h
+    exact kvTree_sim cfg data cm xs r hd (plainTL_flagFreeL xs hx) h
+  | _, .kvblock data cm cm2 xs hd hx, r, h => by
+    have hkvt : comT cfg (.tree data cm2 xs) = .ok (.tree data cm2 xs) := by
+      simp only [comT, comTL_plain cfg xs hx, comNode_other cfg data cm2 xs (kv_notcom data hd)]
+    unfold item2 at h
+    rw [comT_tree, comTL_cons, hkvt] at h
+    simp only [comTL, comNode_composite] at h
+    cases hm : mainT cfg (.tree s%"composite" cm [.tree data cm2 xs]) with
+    | error e => simp [hm] at h
+    | ok r1 =>
+      simp only [hm] at h
+      -- the plain run, through the single-pass theorem
+      obtain ⟨r0, e0, hrel⟩ := C13_item_transparent cfg _ (shapeItem_of_C_kvblock data cm cm2 xs hd hx) r1 hm
+      -- r1 is the key/value block's dict
+      have hr1 : ∃ dk, r1 = .cdict dk := by
+        rw [mainT_tree, mainTL_cons] at hm
+        cases hk : mainT cfg (.tree data cm2 xs) with
+        | error e => simp [hk] at hm
+        | ok rk =>
+          simp only [hk, mainTL, callback_composite, composite] at hm
+          injection hm with hm; subst hm
+          rw [mainT_tree] at hk
+          cases hml : mainTL cfg xs with
+          | error e => simp [hml] at hk
+          | ok xs' =>
+            simp only [hml, callback_kv _ data cm2 xs' hd] at hk
+            exact valuePairs_cdict cfg data xs' _ hk
+      obtain ⟨dk, rfl⟩ := hr1
+      cases hc : compCom cm [.tree data cm2 xs] (.cdict dk) with
+      | error e => simp [hc] at h
+      | ok r2 =>
+        obtain ⟨d3, rfl, hs⟩ := compCom_strip cm _ dk r2 hc
+        simp only [hc, mainT] at h
+        injection h with h; subst h
+        refine ⟨r0, e0, ?_⟩
+        simp only [Rel] at hrel ⊢
+        rw [hrel, hs]
+  | _, .block cm cm2 ty items hty hitems, r, h => by
+    unfold item2 at h
+    have hb : comNames.contains s%"composite_body" = false := by decide
+    rw [comT_tree, comTL_cons, comT_plain cfg ty hty, comTL_cons, comT_tree] at h
+    cases hci : comTL cfg items with
+    | error e => simp [hci] at h
+    | ok items' =>
+      simp only [hci, comNode_other cfg _ cm2 items' hb, comTL, comNode_composite] at h
+      cases hm : mainT cfg (.tree s%"composite" cm [ty, .tree s%"composite_body" cm2 items']) with
+      | error e => simp [hm] at h
+      | ok r1 =>
+        simp only [hm] at h
+        rw [mainT_tree, mainTL_cons, mainTL_cons, mainT_tree] at hm
+        cases hmt : mainT cfg ty with
+        | error e => simp [hmt] at hm
+        | ok tyR =>
+          cases hmi : mainTL cfg items' with
+          | error e => simp [hmt, hmi] at hm
+          | ok itemsR =>
+            have hi2 : items2 cfg items = .ok itemsR := by simp [items2, hci, hmi]
+            obtain ⟨items0, e0, hrel⟩ := C13_items_transparent_com cfg items hitems itemsR hi2
+            simp only [hmt, hmi, callback_body, mainTL, callback_composite, composite] at hm
+            cases hk : compositeKey tyR with
+            | error e => simp [hk] at hm
+            | ok key =>
+              simp only [hk] at hm
+              obtain ⟨d, rfl⟩ := compositeBody_cdict cfg _ _ key itemsR r1 hm
+              obtain ⟨r0, ep, hr0⟩ := C13_composite_transparent cfg _ _ key itemsR items0 _ hrel hm
+              cases hc : compCom cm [ty, .tree s%"composite_body" cm2 items'] (.cdict d) with
+              | error e => simp [hc] at h
+              | ok r2 =>
+                obtain ⟨d3, rfl, hs⟩ := compCom_strip cm _ d r2 hc
+                simp only [hc, mainT] at h
+                injection h with h; subst h
+                refine ⟨r0, ?_, ?_⟩
+                · rw [mainT_tree, mainTL_cons, mainTL_cons, mainT_tree]
+                  rw [mainT_flagFree cfg ty (plainT_flagFree ty hty), hmt]
+                  simp only [e0, callback_body, mainTL, callback_composite, composite, hk]
+                  exact ep
+                · simp only [Rel] at hr0 ⊢
+                  rw [hr0, hs]
+theorem C13_items_transparent_com (cfg : Cfg) : (ts : List R) → ShapeCs ts → ∀ rs, items2 cfg ts = .ok rs →
+    ∃ rs0, mainTL (plainCfg cfg) ts = .ok rs0 ∧ RelL rs rs0
+  | _, .nil, rs, h => by
+    simp [items2, comTL, mainTL] at h
+    subst h
+    exact ⟨[], by simp [mainTL], .nil⟩
+  | _, .cons x r hx hr, rs, h => by
+    have hlen := items2_nil_or_cons cfg (x :: r) rs h
+    match rs, hlen with
+    | a :: b, _ =>
+      obtain ⟨h1, h2⟩ := items2_cons cfg x r a b h
+      obtain ⟨x0, e1, hr1⟩ := C13_item_transparent_com cfg x hx a h1
+      obtain ⟨r0, e2, hr2⟩ := C13_items_transparent_com cfg r hr b h2
+      exact ⟨x0 :: r0, by rw [mainTL_cons]; simp [e1, e2], .cons hr1 hr2⟩
+end
+
+/-- with include_comments the whole transform is: canonize, comments pass, main pass -/
+theorem transform_com (cfg : Cfg) (hc : cfg.com = true) (t : R) : transform cfg t = item2 cfg (canonize t) := by
+  simp only [transform, hc, if_true, bind, Except.bind, item2]
+  cases comT cfg (canonize t) <;> rfl
+
+/-- **C13_comments_transparent** — the whole two-pass pipeline: for every tree whose root is `start` over
+grammar-shaped blocks (any number, any nesting depth, comments attached anywhere) and EVERY setting of the two flags,
+a successful load with bookkeeping yields exactly the plain load's dictionaries plus `__position__` / `__comments__`
+entries -/
+theorem C13_comments_transparent (cfg : Cfg) (cm : Option (List Str)) (blocks : List R) (hs : ShapeCs blocks)
+    (r : R) (h : item2 cfg (.tree s%"start" cm blocks) = .ok r) :
+    ∃ r0, mainT (plainCfg cfg) (.tree s%"start" cm blocks) = .ok r0 ∧
+      (Rel r r0 ∨ ∃ rs rs0, r = .seq false rs ∧ r0 = .seq false rs0 ∧ RelL rs rs0) := by
+  unfold item2 at h
+  have hst : comNames.contains s%"start" = false := by decide
+  simp only [comT] at h
+  cases hci : comTL cfg blocks with
+  | error e => simp [hci] at h
+  | ok blocks' =>
+    simp only [hci, comNode_other cfg _ cm blocks' hst] at h
+    rw [mainT_tree] at h ⊢
+    cases hm : mainTL cfg blocks' with
+    | error e => simp [hm] at h
+    | ok rs =>
+      have hi2 : items2 cfg blocks = .ok rs := by simp [items2, hci, hm]
+      obtain ⟨rs0, e0, hrel⟩ := C13_items_transparent_com cfg blocks hs rs hi2
+      simp only [hm, e0, callback_start] at h ⊢
+      cases hrel with
+      | nil =>
+        injection h with h; subst h
+        exact ⟨_, rfl, Or.inr ⟨[], [], rfl, rfl, .nil⟩⟩
+      | @cons x x0 rs' rs0' hx hrest =>
+        cases hrest with
+        | nil =>
+          injection h with h; subst h
+          exact ⟨x0, rfl, Or.inl hx⟩
+        | @cons y y0 rs'' rs0'' hy hrest' =>
+          injection h with h; subst h
+          exact ⟨_, rfl, Or.inr ⟨_, _, rfl, rfl, .cons hx (.cons hy hrest')⟩⟩
+
+mutual
+/-- the decidable shape test of the two-pass pipeline implies its inductive premise -/
+theorem shapeC_of_B : (t : R) → shapeCItemB t = true → ShapeC t
+  | .tree data cm xs, h => by
+    unfold shapeCItemB at h
+    by_cases hc : data = s%"composite"
+    · subst hc
+      simp only [if_true] at h
+      match xs, h with
+      | [.tree d2 cm2 ys], h =>
+        simp only [Bool.and_eq_true] at h
+        exact .kvblock d2 cm cm2 ys h.1 h.2
+      | [ty, .tree b cm2 items], h =>
+        simp only [Bool.and_eq_true, beq_iff_eq] at h
+        obtain ⟨⟨hb, hty⟩, hit⟩ := h
+        subst hb
+        exact .block cm cm2 ty items hty (shapeCs_of_B items hit)
+    · simp only [hc, if_false, Bool.and_eq_true, Bool.or_eq_true] at h
+      rcases h.1 with ha | hk
+      · exact .simple data cm xs ha h.2
+      · exact .kv data cm xs hk h.2
+theorem shapeCs_of_B : (ts : List R) → shapeCItemsB ts = true → ShapeCs ts
+  | [], _ => .nil
+  | x :: r, h => by
+    simp only [shapeCItemsB, Bool.and_eq_true] at h
+    exact .cons x r (shapeC_of_B x h.1) (shapeCs_of_B r h.2)
 end
 
 /-- non-vacuity: `MAP NAME "x" END` as Lark builds it satisfies the shape premise -/
